@@ -55,13 +55,14 @@ KINDS = {
     "dipoleAngle": ("dipoleAngle", ["group1", "group2", "group3"]),
     "polarTheta": ("polarTheta", ["atoms"]),
     "polarPhi": ("polarPhi", ["atoms"]),
+    "rmsd": ("rmsd", ["atoms"]),
 }
 COM_BASED = {"distance", "distanceVec", "distanceZ", "distanceZ2", "distanceXY", "distanceXY2", "angle", "dihedral", "polarTheta", "polarPhi"}
-ATOM_BASED = {"distanceInv", "gyration", "inertia", "inertiaZ", "coordNum", "selfCoordNum", "dipoleMagnitude", "dipoleAngle"}
+ATOM_BASED = {"rmsd", "distanceInv", "gyration", "inertia", "inertiaZ", "coordNum", "selfCoordNum", "dipoleMagnitude", "dipoleAngle"}
 POSITIVE = {"distance", "distanceXY", "distanceXY2", "distanceInv", "gyration", "inertia", "angle"}
 T1 = ["distance", "distanceZ", "distanceZ2", "distanceXY", "distanceXY2", "distanceInv", "gyration", "inertia", "inertiaZ",
       "angle", "coordNum", "selfCoordNum"]
-T2 = ["dihedral", "dipoleMagnitude", "dipoleAngle", "polarTheta", "polarPhi"]
+T2 = ["dihedral", "dipoleMagnitude", "dipoleAngle", "polarTheta", "polarPhi", "rmsd"]
 
 
 def v3(t):
@@ -117,6 +118,8 @@ def cvc_conf(c):
         L.append("    expDenom %d" % (2 * pr["ed2"]))
         if pr.get("g2c"):
             L.append("    group2CenterOnly on")
+    if c["kind"] == "rmsd":
+        L.append("    refPositions " + " ".join(v3(x) for x in pr["ref"]))
     for extra in c.get("extra", []):
         L.append("    " + extra)
     for key, g in zip(gkeys, c["groups"]):
@@ -302,6 +305,10 @@ def model_line(case, res=None):
                 t += [hx(pr["r0"]), str(pr["en2"]), str(pr["ed2"]), "1" if pr.get("g2c") else "0"]
             if k == "selfCoordNum":
                 t += [hx(pr["r0"]), str(pr["en2"]), str(pr["ed2"])]
+            if k == "rmsd":
+                t.append(str(len(pr["ref"])))
+                for x in pr["ref"]:
+                    t += [hx(x[0]), hx(x[1]), hx(x[2])]
             t.append(str(len(c["groups"])))
             for g in c["groups"]:
                 t += group_tokens(g)
@@ -395,6 +402,25 @@ def mic(case, d, pbc=True):
         margin = min(margin, y - f, f + 1 - y)
         out.append(d[k] - f * cell[k])
     return out, margin
+
+
+def jacobi_eigs(S):
+    """eigenvalues (ascending) of a small symmetric matrix, cyclic Jacobi"""
+    n = len(S); A = [row[:] for row in S]
+    for _ in range(60):
+        for p in range(n - 1):
+            for q in range(p + 1, n):
+                if abs(A[p][q]) > 1e-300:
+                    th = (A[q][q] - A[p][p]) / (2.0 * A[p][q])
+                    t = (1.0 if th >= 0 else -1.0) / (abs(th) + math.sqrt(th * th + 1.0))
+                    c = 1.0 / math.sqrt(t * t + 1.0); sn = t * c
+                    for k in range(n):
+                        akp, akq = A[k][p], A[k][q]
+                        A[k][p] = c * akp - sn * akq; A[k][q] = sn * akp + c * akq
+                    for k in range(n):
+                        apk, aqk = A[p][k], A[q][k]
+                        A[p][k] = c * apk - sn * aqk; A[q][k] = sn * apk + c * aqk
+    return sorted(A[i][i] for i in range(n))
 
 
 def cvc_guard(case, c):
@@ -493,6 +519,20 @@ def cvc_guard(case, c):
                     if vnorm(d) < 0.3 or m <= MARG or abs(vnorm(d) / pr["r0"] - 1.0) < 0.05:
                         return False
             return True
+        if k == "rmsd":
+            # non-degenerate optimal rotation (gap between the two largest eigenvalues of the overlap matrix) and rmsd > 0
+            l = gpositions(case, gs[0]); rf = [list(x) for x in pr["ref"]]
+            n = len(l)
+            cl = [sum(p[kk] for p in l) / n for kk in range(3)]; cr = [sum(p[kk] for p in rf) / n for kk in range(3)]
+            y = [vsub(p, cl) for p in l]; rr = [vsub(p, cr) for p in rf]
+            C = [[sum(a[i2] * b[j2] for a, b in zip(y, rr)) for j2 in range(3)] for i2 in range(3)]
+            S = [[C[0][0]+C[1][1]+C[2][2], C[1][2]-C[2][1], C[2][0]-C[0][2], C[0][1]-C[1][0]],
+                 [C[1][2]-C[2][1], C[0][0]-C[1][1]-C[2][2], C[0][1]+C[1][0], C[0][2]+C[2][0]],
+                 [C[2][0]-C[0][2], C[0][1]+C[1][0], C[1][1]-C[0][0]-C[2][2], C[1][2]+C[2][1]],
+                 [C[0][1]-C[1][0], C[0][2]+C[2][0], C[1][2]+C[2][1], C[2][2]-C[0][0]-C[1][1]]]
+            w = jacobi_eigs(S)
+            msd = (sum(vdot(a, a) for a in y) + sum(vdot(a, a) for a in rr) - 2 * w[-1]) / n
+            return (w[-1] - w[-2]) > 1.0 and msd > 0.1
         if k in ("gyration", "inertia", "inertiaZ"):
             l = gpositions(case, gs[0])
             return math.sqrt(sum(vdot(p, p) for p in l) / len(l)) > 0.3
@@ -576,9 +616,11 @@ def gen_cvc(r, kind, n_atoms, opts):
         size = None
         if kind in ("gyration", "inertia", "inertiaZ", "selfCoordNum", "dipoleMagnitude") or (kind == "dipoleAngle" and gi == 0):
             size = r.choice([2, 3, 4, 5])
+        if kind == "rmsd":
+            size = r.choice([3, 4, 5])
         allow_dummy = not atom_based_first or (kind == "coordNum" and gi == 1)
         # gyration/inertia centre their group themselves; explicit fitting options change their meaning
-        allow_center = kind not in ("gyration", "inertia", "inertiaZ")
+        allow_center = kind not in ("gyration", "inertia", "inertiaZ", "rmsd")   # rmsd: default fit of the component itself
         if kind == "distancePairs":
             size, allow_dummy, allow_center = r.choice([1, 2, 2]), False, True
         g = gen_group(r, n_atoms, pool, opts, size=size, allow_dummy=allow_dummy, allow_center=allow_center)
@@ -594,6 +636,9 @@ def gen_cvc(r, kind, n_atoms, opts):
         c["groups"].append(g)
         if disjoint and pool is None and gi + 1 < ng:
             return None
+    if kind == "rmsd":
+        n = len(c["groups"][0]["ids"])
+        pr["ref"] = [tuple(V.dyadic(r, -3, 3, bits=3) for _ in range(3)) for _ in range(n)]
     if kind == "coordNum" and "dummy" in c["groups"][1]:
         pr["g2c"] = True
     c["coeff"] = r.choice([1.0, 1.0, 1.0, -1.0, 0.5, 2.0, 1.5, -0.25]) if opts["poly"] else 1.0
